@@ -19,12 +19,13 @@ LEVEL = 'exploration'
 TECHNIQUE = 'runtime monitor: independent template renderer + recording logger plugin vs emitted messages and snapshots'
 RULE = ('templates from a grammar: literal runs (ascii, unicode, %, $, quotes), doubled braces, 0-5 fields naming '
         'locals, attributes, indexes, calls, host globals and failing expressions (no ":" "!" or braces inside a '
-        'field); log-only and log+snapshot tracepoints, fire_count 1/2/-1, 1-4 hits with changing frame state; '
+        'field); log-only and log+snapshot tracepoints, a logger that rejects text it cannot encode (with a co-located tracepoint), fire_count 1/2/-1, 1-4 hits with changing frame state; '
         'malformed templates for containment only; non-trivial = a message was expected and compared; distinct by '
         '(template, frame inputs, mode)')
 ASSUMPTIONS = ['field expressions avoid the characters the format mini-language gives a meaning to']
 REQUIRE = {'messages_compared': 1200, 'fields_compared': 1500, 'failing_fields': 150, 'snapshot_log_pairs': 300,
-           'label_checks': 1200, 'python_plugin_messages': 100, 'malformed_templates': 50}
+           'label_checks': 1200, 'python_plugin_messages': 100, 'malformed_templates': 50,
+           'messages_the_logger_rejected': 40}
 T0 = 1_700_000_000_000_000_000
 
 HOST = '''"""c16 host"""
@@ -149,6 +150,12 @@ def case_log(seed, out, spec, wd):
         template, fields = gen_template(r)
     collect = r.chance(0.5)
     logger = r.pick(['rec', 'rec', 'rec', 'python'])
+    # a logger that writes UTF-8 lines (file, socket) cannot take every text: it raises after receiving it. The
+    # messages of that hit - also those of a co-located tracepoint - are still all due.
+    strict = (not malformed) and r.chance(0.12)
+    if strict:
+        logger = 'rec'
+        template = 'n={name} ' + template
     fc = r.pick([1, 2, -1])
     args = {'log_msg': template, 'fire_count': str(fc), 'fire_period': '0'}
     if not collect:
@@ -156,7 +163,7 @@ def case_log(seed, out, spec, wd):
     tp_id = 'tp-%d' % r.randrange(10 ** 6)
     trigs = [line_trigger(tp_id, base, line, args, [], [])]
     other_id = None
-    if r.chance(0.3):   # a second, well-formed log tracepoint on the same line must be unaffected
+    if r.chance(0.3) or strict:   # a second, well-formed log tracepoint on the same line must be unaffected
         other_id = 'other-%d' % r.randrange(10 ** 6)
         trigs.append(line_trigger(other_id, base, line, {'log_msg': 'other {count}', 'snapshot': 'no_collect',
                                                         'fire_count': '-1', 'fire_period': '0'}, [], []))
@@ -175,8 +182,11 @@ def case_log(seed, out, spec, wd):
         if collect and r.chance(0.15):
             # a frame far larger than the snapshot's variable limit: the message must still render every field
             data = [[[i * 100 + j * 10 + k for k in range(10)] for j in range(10)] for i in range(11)]
-        inputs.append((r.randrange(0, 7), r.pick(['ann', 'bob', '7', 'Ünï', '  padded  ', 'two\nlines', '', '{braces}', '%d']), r.pick(['p1', 'p2']),
+        inputs.append((r.randrange(0, 7),
+                       r.pick(['bad\udcffname', '\ud800']) if strict else
+                       r.pick(['ann', 'bob', '7', 'Ünï', '  padded  ', 'two\nlines', '', '{braces}', '%d']), r.pick(['p1', 'p2']),
                        data, r.pick(['nostr', 'plain'])))
+    rejected = []
     expected = []   # per hit: (text, fields)
     observed = {}   # hit -> [(tp_id_arg, ctx_arg, msg)]
     pylog = {}
@@ -198,6 +208,12 @@ def case_log(seed, out, spec, wd):
     def hook(name, callback, payload):
         if callback == 'log':
             observed.setdefault(cur['hit'], []).append((payload['tp_id'], payload['ctx_id'], payload['msg']))
+            if strict:
+                try:
+                    payload['msg'].encode('utf-8')
+                except UnicodeEncodeError:
+                    rejected.append(cur['hit'])
+                    raise
 
     class H(logging.Handler):
         def emit(self, record):
@@ -230,7 +246,7 @@ def case_log(seed, out, spec, wd):
         deep_logger.setLevel(old_level)
     rig.cleanup()
     replay = replay_spec(spec, seed)
-    witness = {'template': template, 'collect': collect, 'logger': logger, 'fire_count': fc, 'inputs': inputs,
+    witness = {'template': template, 'collect': collect, 'logger': logger, 'logger_rejects_unencodable_text': strict, 'fire_count': fc, 'inputs': inputs,
                'second_tracepoint': other_id is not None, 'agent_log': [short(x, 160) for x in rig.logs[-2:]]}
     if exc is not None:
         out.inconc('C16 host raised %r' % (exc,))
@@ -339,6 +355,8 @@ def case_log(seed, out, spec, wd):
             out.count('snapshot_log_pairs')
         out.count('fields_compared', len(fvals))
     out.count('messages_compared', compared)
+    if rejected:
+        out.count('messages_the_logger_rejected', len(rejected))
     out.count('failing_fields', nfail)
     if malformed:
         out.count('malformed_templates')
